@@ -132,6 +132,20 @@ Proof.
   - congruence.
 Qed.
 
+Lemma existsb_perm {A} (p : A -> bool) l l' : Permutation l l' -> existsb p l = existsb p l'.
+Proof.
+  induction 1 as [| x l l' HP IH | x y l | l l' l'' HP1 IH1 HP2 IH2]; simpl; auto.
+  - now rewrite IH.
+  - destruct (p x), (p y); reflexivity.
+  - congruence.
+Qed.
+
+(* `any(pred(x) for x in <set>)` / `all(pred(x) for x in <set>)` with a read-only predicate (short-circuit does
+   not matter for the value): the harness accepts these consumptions of a set generically *)
+Theorem any_all_over_set_order_irrelevant {A} (p : A -> bool) l l' : Permutation l l' ->
+  existsb p l = existsb p l' /\ forallb p l = forallb p l'.
+Proof. intro HP. split; [now apply existsb_perm | now apply forallb_perm]. Qed.
+
 (* ------------------------------------------------------------------------------------------- *)
 (** ** S2 S4 S10 (and the removal half of S3 S13): graph.remove(list(<set>))                   *)
 (* onnx_ir Graph.remove(nodes): nodes_set = frozenset(nodes); every member is unlinked from the doubly
@@ -828,6 +842,50 @@ Proof.
   { induction h as [|u t IH]; intro f; simpl; auto. simpl in H. apply orb_false_iff in H. destruct H as [-> H].
     simpl. now apply IH. }
   now rewrite G.
+Qed.
+
+(* ------------------------------------------------------------------------------------------- *)
+(** ** B''. scoped process-wide state must be restored on EVERY exit path                          *)
+(* plugins/plugin_system.py FunctionPlugin._lower_and_call puts the function's name into the ContextVar
+   set _IN_FUNCTION_BUILD while the @onnx_function body is traced; a patched call of a function whose name
+   is in the set calls straight through (the function is INLINED instead of emitted as a FunctionProto).
+   The body trace can raise (user code, a transient error, KeyboardInterrupt).  Shape of the code:
+       active = set(VAR.get()); VAR.set(active | {name}); try: <trace body> finally: VAR.set(active)
+   Model: the state is the set; a conversion is (name, does the body raise?). *)
+Definition scoped_finally (nm : name) (raises : bool) (st : list name) : bool * list name := (raises, st).
+(* restore written after the body without exception protection (set(); body; reset()) *)
+Definition scoped_unprotected (nm : name) (raises : bool) (st : list name) : bool * list name :=
+  if raises then (true, nm :: st) else (false, st).
+Definition state_after (scoped : name -> bool -> list name -> bool * list name) (h : list (name * bool)) : list name :=
+  fold_left (fun st c => snd (scoped (fst c) (snd c) st)) h [].
+(* what a later conversion observes for function f: is it inlined? *)
+Definition inlined_after scoped (h : list (name * bool)) (f : name) : bool := mem f (state_after scoped h).
+
+Theorem contextvar_restored_on_every_exit : forall h, state_after scoped_finally h = [].
+Proof.
+  intro h. unfold state_after. assert (G : forall st, fold_left (fun st c => snd (scoped_finally (fst c) (snd c) st)) h st = st).
+  { induction h as [|c t IH]; intro st; simpl; auto. }
+  apply G.
+Qed.
+
+Corollary failed_conversions_do_not_inline : forall h1 h2 f,
+  inlined_after scoped_finally h1 f = inlined_after scoped_finally h2 f.
+Proof. intros. unfold inlined_after. now rewrite !contextvar_restored_on_every_exit. Qed.
+
+Theorem unprotected_restore_refuted :
+  exists h1 h2 f, inlined_after scoped_unprotected h1 f <> inlined_after scoped_unprotected h2 f.
+Proof. exists [], [(7, true)], 7. vm_compute. discriminate. Qed.
+
+(* without protection only histories whose conversions all succeed are harmless *)
+Theorem unprotected_restore_partial : forall h,
+  forallb (fun c => negb (snd c)) h = true -> state_after scoped_unprotected h = [].
+Proof.
+  intro h. unfold state_after.
+  assert (G : forall st, forallb (fun c => negb (snd c)) h = true ->
+              fold_left (fun st c => snd (scoped_unprotected (fst c) (snd c) st)) h st = st).
+  { induction h as [|[n r] t IH]; intros st H; simpl in *; auto. apply andb_prop in H. destruct H as [Hr Ht].
+    destruct r; [discriminate|]. simpl. now apply IH. }
+  apply G.
 Qed.
 
 (* ------------------------------------------------------------------------------------------- *)
